@@ -64,3 +64,10 @@ Proof.
   intros ord sel_eqb Hp ops i it p x H1 H2.
   apply (parents_live_run ord (perm_same ord Hp) sel_eqb ops i it p H1 H2).
 Qed.
+
+Lemma restr_model_meets_spec : forall a maps,
+  snd (check_case (CRestr a (restrictions a) maps (map (eval a) maps))) = true.
+Proof.
+  intros a maps. simpl. induction maps as [|L maps IH]; simpl; auto.
+  rewrite IH, andb_true_r. destruct (eval a L) eqn:E; simpl; auto. apply restrictions_sound_b. auto.
+Qed.
